@@ -115,6 +115,34 @@ func rawFor(kind, uname, size string, seed int64) []RawKey {
 		if uname == "tupleq" {
 			n = 9
 		}
+		if uname == "giant" || uname == "huge" || uname == "huge2" {
+			// the byte-string universes of very long keys as the string field of a tuple (numeric fields constant):
+			// encoded tuples of more than 255 / 65535 bytes
+			w := 0
+			hasStr := false
+			for _, f := range s.Fields {
+				if f == fStr {
+					hasStr = true
+				} else {
+					w += fieldWidth[f]
+				}
+			}
+			if !hasStr {
+				fatal("universe %s needs a schema with a string field", uname)
+			}
+			var u []RawKey
+			for _, k := range Universe(uname, size, seed) {
+				if bytes.IndexByte(k.B, 0) >= 0 {
+					continue
+				}
+				b := make([]byte, w, w+len(k.B))
+				for i := range b {
+					b[i] = 7
+				}
+				u = append(u, RawKey{B: append(b, k.B...), Probe: k.Probe})
+			}
+			return u
+		}
 		if uname == "tuplerange" {
 			// fields cut from 8 raw bytes; stored tuples share a 7-byte encoded path, bounds share only part of it
 			mk := func(a, b uint32, probe bool) RawKey {
